@@ -5,6 +5,7 @@ import (
 	"go/ast"
 	"go/token"
 	"go/types"
+	"strings"
 )
 
 // Goroutines, channels and locks of the system under simulation itself: `go` statements become tasks of the
@@ -235,26 +236,26 @@ func (w *genWalker) concStmt(st ast.Stmt) {
 	}
 }
 
-// rewriteSelect turns a select into a poll of its cases in an order drawn from the tape: when several cases are
-// ready the runtime would pick one at random, and that choice has to be the simulator's. The clauses stay where
-// they are (insertions and keyword replacements only):
+// rewriteSelect hands the communication of a select statement to the simulator: when several cases are ready the
+// runtime would pick one at random, and that choice has to be the tape's.
 //
-//	select {                      { verifhook.Pre(); var verifFiredK bool; verifSelK := verifhook.NewSelect(2, true)
-//	case v := <-a:                verifTryK: switch verifSelK.Next() {
-//	    A                         case 0: select { case v := <-a: verifFiredK = true; verifhook.Post()
-//	case b <- x:                      A
-//	    B                             default: }
-//	default:                      case 1: select { case b <- x: verifFiredK = true; verifhook.Post()
+//	select {                      { verifhook.Pre()
+//	case v := <-a:                  verifI1, verifV1, verifOK1 := verifhook.Select(true, verifhook.CaseRecv(a), verifhook.CaseSend(b, x))
+//	    A                           verifhook.Post(); switch verifI1 {
+//	case b <- x:                  case 0: v := verifhook.Val(a, verifV1);
+//	    B                             A
+//	default:                      case 1:
 //	    D                             B
-//	}                                 default: }
-//	                              case -1: verifFiredK = true; verifhook.Post()
+//	}                             case -1:
 //	                                  D
-//	                              }; if !verifFiredK { goto verifTryK } }
+//	                              } }
 //
-// Without a default clause `case -1` waits until another task has run and polls again. An unlabelled break inside
-// a clause still leaves the (inner) select, continue still reaches the enclosing loop. Operands must be pure
-// (they are evaluated once per poll); otherwise the select keeps its real form, bracketed with Pre/Post, and is
-// listed as not modelled.
+// Select tries the cases one by one, non-blocking, in an order drawn from the tape; if none is ready and there is no
+// default it blocks in one real select over all of them (a task blocked there is found by the goroutine dump like
+// any other, and an unbuffered rendezvous with another task's poll works because this side really waits). An
+// unlabelled break inside a clause leaves the switch, continue still reaches the enclosing loop. Operands must be
+// pure (their text is moved); otherwise the select keeps its real form, bracketed with Pre/Post, and is listed as
+// not modelled.
 func (w *genWalker) rewriteSelect(x *ast.SelectStmt) {
 	bracketOnly := func(why string) {
 		w.es.insert(w.off(x.Pos()), "verifhook.Pre(); ")
@@ -323,30 +324,53 @@ func (w *genWalker) rewriteSelect(x *ast.SelectStmt) {
 	}
 	w.selN++
 	k := fmt.Sprintf("%d", w.selN)
-	w.es.replace(w.off(x.Select), w.off(x.Body.Lbrace)+1,
-		fmt.Sprintf("{ verifhook.Pre(); var verifFired%s bool; verifSel%s := verifhook.NewSelect(%d, %v); verifTry%s: switch verifSel%s.Next() {", k, k, n, hasDefault, k, k))
-	idx := 0
-	for i, cl := range x.Body.List {
+	var cases []string
+	type bind struct{ text string }
+	var binds []string
+	for _, cl := range x.Body.List {
 		cc := cl.(*ast.CommClause)
-		end := x.Body.Rbrace
-		if i+1 < len(x.Body.List) {
-			end = x.Body.List[i+1].Pos()
-		}
 		if cc.Comm == nil {
-			w.es.replace(w.off(cc.Case), w.off(cc.Case)+len("default"), "case -1")
-			w.es.insert(w.off(cc.Colon)+1, fmt.Sprintf(" verifFired%s = true; verifhook.Post();", k))
 			continue
 		}
-		w.es.replace(w.off(cc.Case), w.off(cc.Case)+len("case"), fmt.Sprintf("case %d: select { case", idx))
-		w.es.insert(w.off(cc.Colon)+1, fmt.Sprintf(" verifFired%s = true; verifhook.Post();", k))
-		w.es.insert(w.off(end), "\ndefault: }\n")
+		idx := len(cases)
+		_ = idx
+		switch c := cc.Comm.(type) {
+		case *ast.SendStmt:
+			cases = append(cases, fmt.Sprintf("verifhook.CaseSend(%s, %s)", w.text(c.Chan), w.text(c.Value)))
+			binds = append(binds, "")
+		case *ast.ExprStmt:
+			u := c.X.(*ast.UnaryExpr)
+			cases = append(cases, fmt.Sprintf("verifhook.CaseRecv(%s)", w.text(u.X)))
+			binds = append(binds, "")
+		case *ast.AssignStmt:
+			u := c.Rhs[0].(*ast.UnaryExpr)
+			ch := w.text(u.X)
+			cases = append(cases, fmt.Sprintf("verifhook.CaseRecv(%s)", ch))
+			val := fmt.Sprintf("verifhook.Val(%s, verifV%s)", ch, k)
+			tok := c.Tok.String()
+			if len(c.Lhs) == 2 {
+				binds = append(binds, fmt.Sprintf(" %s, %s %s %s, verifOK%s;", w.text(c.Lhs[0]), w.text(c.Lhs[1]), tok, val, k))
+			} else {
+				binds = append(binds, fmt.Sprintf(" %s %s %s;", w.text(c.Lhs[0]), tok, val))
+			}
+		}
+	}
+	// select { ... }  ->  the simulator performs the communication (ready cases tried in tape order, otherwise a real
+	// blocking select over all of them), the clauses become the arms of a switch over the chosen index
+	w.es.replace(w.off(x.Select), w.off(x.Body.Lbrace)+1,
+		fmt.Sprintf("{ verifhook.Pre(); verifI%s, verifV%s, verifOK%s := verifhook.Select(%v, %s); verifhook.Post(); _, _ = verifV%s, verifOK%s; switch verifI%s {",
+			k, k, k, hasDefault, strings.Join(cases, ", "), k, k, k))
+	idx := 0
+	for _, cl := range x.Body.List {
+		cc := cl.(*ast.CommClause)
+		if cc.Comm == nil {
+			w.es.replace(w.off(cc.Case), w.off(cc.Case)+len("default"), "case -1")
+			continue
+		}
+		w.es.replace(w.off(cc.Case), w.off(cc.Colon)+1, fmt.Sprintf("case %d:%s", idx, binds[idx]))
 		idx++
 	}
-	tail := ""
-	if !hasDefault {
-		tail = fmt.Sprintf("case -1: verifSel%s.Wait()\n", k)
-	}
-	w.es.replace(w.off(x.Body.Rbrace), w.off(x.Body.Rbrace)+1, fmt.Sprintf("%s}; if !verifFired%s { goto verifTry%s } }", tail, k, k))
+	w.es.replace(w.off(x.Body.Rbrace), w.off(x.Body.Rbrace)+1, "} }")
 	w.needHook = true
 	w.rep.SyncBracketed++
 	w.rep.SelectsPolled++
@@ -383,7 +407,7 @@ func (w *genWalker) selectPure(e ast.Expr) bool {
 		// ctx.Done() and conversions: evaluated again per poll, harmless (time.After would make a new timer per poll)
 		if sel, ok := x.Fun.(*ast.SelectorExpr); ok && len(x.Args) <= 1 {
 			switch sel.Sel.Name {
-			case "Done":
+			case "Done", "Context":
 				for _, a := range x.Args {
 					if !w.selectPure(a) {
 						return false
